@@ -62,7 +62,7 @@ def oracle_rhs(res, a, stmts, where, rng, case):
     env = make_env(a, rng)
     by = {}
     for lhs, rhs in stmts:
-        m = re.fullmatch(r"ydot\[(?:yistart \+ )?IDX_(.+)\]", lhs)
+        m = re.fullmatch(r"ydot\[IDX_(.+)\]", lhs)
         if not m:
             res.violation("oracle", f"{where}: unexpected left-hand side {lhs!r}", case)
             return
@@ -114,7 +114,7 @@ def oracle_rhs(res, a, stmts, where, rng, case):
 def corr_rhs(res, a, stmts, where, case):
     """model rhs terms vs statements (canonical multisets)"""
     lhs_expected = [f"ydot[IDX_{al}]" for al in a.aliases] + (["ydot[IDX_TGAS]"] if (a.info.heating or a.info.cooling) else [])
-    got_lhs = [l.replace("yistart + ", "") for l, _ in stmts]
+    got_lhs = [l for l, _ in stmts]
     if got_lhs != lhs_expected[:len(got_lhs)] or len(got_lhs) != len(lhs_expected):
         res.corr_disagreements += 1
         res.violation("correspondence", f"{where}: left-hand sides {got_lhs[:6]}.. differ from the species order {lhs_expected[:6]}..", case)
@@ -151,7 +151,25 @@ def fex_statements(src: str, kernel=False):
         body = src[src.index("int Fex("):]
     else:
         body = src
-    return [(l, r) for l, r in ol.extract_statements(body, r"ydot\[(?:yistart \+ )?IDX_[^\]]*\]")]
+    # local pointer aliases and per-system offsets are resolved first (`ydot_cur[IDX_x]`, `ydot[yistart + IDX_x]`
+    # and `ydot[IDX_x]` are one and the same element of the one system this reader looks at)
+    body = ol.resolve_aliases(body)
+    return [(l, r) for l, r in ol.extract_statements(body, r"ydot\[IDX_[^\]]*\]")]
+
+
+def unread_writes(src: str, kernel=False):
+    """array writes in the rendered function that fex_statements does not read as `ydot[IDX_x] = ...`: a compound
+    assignment, another target array, a subscript that is not one macro.  When there is one, the reader does not
+    understand the layout of the file and the oracle has nothing to say about it (the correspondence is broken)."""
+    if kernel:
+        body = src[src.index("__global__ void FexKernel"):src.index("int Fex(")]
+    elif "FexKernel" in src:
+        body = src[src.index("int Fex("):]
+    else:
+        body = src
+    body = ol.resolve_aliases(body)
+    return [f"{a}[{sub}] {op}" for a, sub, op in ol.array_writes(body)
+            if not (a == "ydot" and op == "=" and re.fullmatch(r"IDX_\w+", sub))]
 
 
 BACKENDS = [("cvode", "dense", "cpu", "src/naunet_fex.cpp", False),
@@ -190,6 +208,11 @@ def check_desc(res, model, desc, rng, tag, channel_b=False, after=None):
             st = fex_statements(src, kernel)
             where = f"channel B ({solver}/{method} {f})"
             res.count(f"rendered:{method}")
+            odd = unread_writes(src, kernel)
+            if odd:
+                res.corr_disagreements += 1
+                res.violation("correspondence", f"{where}: the reader of the rendered file does not understand the statement(s) {odd[:3]}", case)
+                continue
             # macros: species slots are a bijection onto 0..NSPECIES-1 in species order
             for i, al in enumerate(a.aliases):
                 if ol.macro_int(macros, f"IDX_{al}") != i:
